@@ -116,6 +116,15 @@ class C16(Prop):
             cfg = {"onMissing": "ignore", "errMode": "raise", "maxIter": 40}
             for runner in ("sync", "async"):
                 yield {"program": [inner, g], "known": [["v0", rng.randint(100, 900)]], "cfg": cfg, "runner": runner, "ops": {"entrypoints": 1, "forced": 1}}
+        # (g) a run that takes NO input and produces NOTHING (a parameterless gate says END): the selection policy still applies to it
+        for om in ("error", "warn"):
+            nodes = [{"name": "gate", "kind": "route", "params": [], "targets": ["t", "__END__"], "multiTarget": False, "fallback": None, "defaultOpen": False,
+                      "body": {"b": "table", "rows": [], "dflt": "__END__"}},
+                     {"name": "t", "kind": "fn", "params": [], "dataOuts": ["y"], "body": {"b": "const", "v": 1}}]
+            rng.shuffle(nodes)
+            cfg = {"select": ["y"], "selectAsTuple": False, "selectAsSet": False, "selectAs": None, "onMissing": om, "errMode": "raise", "maxIter": 40}
+            for runner in ("sync", "async"):
+                yield {"program": [{"name": "g0", "nodes": nodes, "bound": []}], "known": [], "cfg": cfg, "runner": runner, "ops": {"rtselect": 1, "forced": 1}}
         # (f) produced values whose `==` answers True for everything (wildcard matchers): present is present, whatever they compare equal to
         for om in ("ignore", "error"):
             nodes = [fn("a", [["x", None]], ["kept"], {"b": "const", "v": {"anyeq": rng.randint(0, 9)}}), fn("b", [["x", None]], ["n"], {"b": "sum", "k": 1})]
